@@ -1067,6 +1067,7 @@ THEOREMS = [
     "C06_nested_default_fill_example",
     "C06_default_exact_partial",
     "C06_default_exact_structural",
+    "C06_check_defaults_covers_members",
     "C06_regression_examples",
 ]
 CORPUS = os.path.join(vlib.ROOT, "corpus", "C06", "witnesses.json")
@@ -1175,6 +1176,36 @@ def run(ctx):
     ctx.coverage["k5_rule"] = ("%d schema kinds x 3 default positions (inline / beside $ref / on the definition) x valid and "
                                "invalid defaults; thorough = whole catalogue, quick = fixed first + seeded picks; ~1/3 with "
                                "struct_builder" % len(KINDS))
+    # ---- K5b: type-level default x member defaults (check_defaults must cover both)
+    ccases = combo_cases()
+    crecs, cviol = run_combo(ctx, ccases)
+    ctx.evaluations += len(crecs)
+    ctx.coverage["k5b_combo_cases"] = len(crecs)
+    ctx.coverage["k5b_type_default_retained"] = len([r for r in crecs if r["type_default_retained"]])
+    ctx.coverage["k5b_rule"] = ("{struct, enum with struct variants} x {definition, inline titled object as property type, "
+                                "add_type} x {type-level default present/absent} x member default {valid 3, valid 0, invalid "
+                                "'three', invalid 2^32, absent}; observed: add result, render, rustc, serde default of the "
+                                "member, Inner::default(), TypeSpace.defaults vs the model's registered_generics")
+    for r in crecs:
+        ctx.nontrivial.add("k5b:" + json.dumps(r["meta"], sort_keys=True))
+    cun = []
+    for r in cviol:
+        fid = None if MUT == "forget-findings" else classify_combo(r)
+        if fid and fid in listed:
+            reproduced.setdefault(fid, {"meta": dict(r["meta"], kind="struct definition", default=r["meta"]["type_default"]),
+                                        "viol": r["viol"]})
+        else:
+            cun.append(r)
+    cviol = cun
+    ctx.oblige("K5b: check_defaults covers member defaults next to a type-level default on %d cases (invalid member "
+               "defaults rejected at add time, shared default_* helpers emitted, defaults realised)" % len(crecs),
+               not cviol, json.dumps([{"meta": r["meta"], "viol": r["viol"][:2]} for r in cviol[:4]], default=str))
+    if cviol:
+        r = sorted(cviol, key=lambda r: len(json.dumps(ccases[r["i"]]["steps"])))[0]
+        unlisted.append((None, {"meta": dict(r["meta"], kind="combo", default=r["meta"]["member_default"]),
+                                "doc": ccases[r["i"]]["steps"], "viol": r["viol"], "valid": r["meta"]["member"] != "invalid",
+                                "add": r["add"], "render": r["render"], "status": r["status"], "realised": []}))
+
     for fid, rec in sorted(reproduced.items()):
         ctx.known_finding(fid, "%s: %s (e.g. kind=%s pos=%s default=%s -> %s)" % (
             fid, listed[fid]["summary"], rec["meta"]["kind"], rec["meta"]["pos"], json.dumps(rec["meta"]["default"]),
@@ -1269,3 +1300,168 @@ def ev_plain(v):
     if isinstance(v, dict):
         return {k: ev_plain(x) for k, x in v.items()}
     return v
+
+
+# ------------------------------------------------------------------ K5b: type-level default x member defaults
+# positions {definition, inline titled object as a property type, add_type} x {type-level default present / absent} x
+# {member default valid / invalid / absent} for structs and for enums with struct variants.  check_defaults must
+# validate BOTH the type-level default and every member default, and register the shared default_* helpers.
+def combo_schema(shape, td, pd):
+    n = {"type": "integer", "format": "uint32"}
+    flag = {"type": "boolean", "default": True}
+    if pd[0] != "absent":
+        n["default"] = pd[1]
+    if shape == "struct":
+        s = {"title": "Inner", "type": "object", "properties": {"n": n, "flag": flag, "s": {"type": "string"}}}
+        tdv = {"n": 5, "s": "x"}
+    else:
+        s = {"title": "Inner", "oneOf": [
+            {"type": "object", "properties": {"kind": {"type": "string", "enum": ["a"]}, "n": n, "flag": flag},
+             "required": ["kind"]},
+            {"type": "object", "properties": {"kind": {"type": "string", "enum": ["b"]}, "w": {"type": "string"}},
+             "required": ["kind"]}]}
+        tdv = {"kind": "b"}
+    if td == "invalid":
+        tdv = {"n": "bad"} if shape == "struct" else {"kind": "zz"}
+    if td:
+        s["default"] = tdv
+    return s, (tdv if td else None)
+
+
+def combo_cases():
+    cases = []
+    for shape in ("struct", "enum"):
+        for pos in ("definition", "inline", "add_type"):
+            for td in ("valid", None, "invalid"):
+                for pd in (("valid", 3), ("valid", 0), ("invalid", "three"), ("invalid", 2**32), ("absent", None)):
+                    if td == "invalid" and pd[0] == "invalid":
+                        continue
+                    s, tdv = combo_schema(shape, td, pd)
+                    base = {"$schema": "http://json-schema.org/draft-07/schema#", "title": "T", "type": "object"}
+                    if pos == "definition":
+                        doc = dict(base, properties={"p": {"$ref": "#/definitions/Inner"}}, definitions={"Inner": s})
+                        steps = [{"op": "root", "doc": doc}]
+                    elif pos == "inline":
+                        doc = dict(base, properties={"p": s, "q": {"type": "integer"}})
+                        steps = [{"op": "root", "doc": doc}]
+                    else:
+                        steps = [{"op": "add", "schema": s}]
+                    cases.append({"settings": {}, "steps": steps,
+                                  "meta": {"shape": shape, "pos": pos, "type_default": tdv, "type_default_valid": td,
+                                           "member": pd[0], "member_default": pd[1]}})
+    return cases
+
+
+def run_combo(ctx, cases):
+    """-> (records, violations); a violation carries the concrete schema"""
+    w = world.World(ctx, "c06c" + ctx.tier[0], [{"settings": c["settings"], "steps": c["steps"]} for c in cases])
+    w.build()
+    reqs = []
+    for i, c in enumerate(cases):
+        if w.status[i] != "ok":
+            continue
+        m = c["meta"]
+        inp = "{}" if m["shape"] == "struct" else json.dumps({"kind": "a"})
+        if w.has_arm(i, "Inner", "de"):
+            reqs.append({"m": i, "t": "Inner", "op": "de", "input": inp, "what": "serde-missing-member"})
+        if w.has_arm(i, "Inner", "default"):
+            reqs.append({"m": i, "t": "Inner", "op": "default", "what": "Inner::default()"})
+        if m["type_default"] is not None and w.has_arm(i, "Inner", "de"):
+            reqs.append({"m": i, "t": "Inner", "op": "de", "input": json.dumps(m["type_default"]), "what": "expected-fill"})
+    ans = w.query(reqs)
+    by = {}
+    for r, a in zip(reqs, ans):
+        by.setdefault(r["m"], {})[r["what"]] = a
+    recs, viol = [], []
+    exprs, dumps, idx = [], [], []
+    for i, c in enumerate(cases):
+        m = c["meta"]
+        g = w.gen[i]
+        adds = [s_["r"] for s_ in g.get("steps", [])]
+        add_ok = bool(adds) and all(a == "ok" for a in adds)
+        retained = False
+        if add_ok and g.get("dump"):
+            tid = g["dump"]["name_to_id"].get("Inner")
+            e = g["dump"]["entries"].get(str(tid), {}) if tid is not None else {}
+            retained = e.get("default") is not None
+        rec = {"i": i, "meta": m, "add": adds, "render": g.get("render", {}).get("r"), "status": w.status[i],
+               "type_default_retained": retained, "viol": []}
+        recs.append(rec)
+        if MUT == "impl-checkdefaults-shadow" and retained and m["member"] != "absent":
+            # emulation of the seeded change: with a retained type-level default the member defaults are neither
+            # validated nor are their shared helpers registered
+            if m["member"] == "invalid":
+                add_ok, rec["add"], rec["render"] = True, ["ok"], "render-panic"
+            else:
+                rec["status"] = "compile-error"
+                w.compile_errors.setdefault(i, [["E0425", "cannot find function `default_u64` in module `defaults` (emulated)"]])
+        if m["member"] == "invalid":
+            if add_ok:
+                rec["viol"].append({"kind": "invalid-member-default-accepted", "render": rec["render"], "compile": rec["status"]})
+            continue
+        if m["type_default_valid"] == "invalid":
+            if add_ok:
+                rec["viol"].append({"kind": "invalid-type-default-accepted", "retained": retained, "render": rec["render"],
+                                    "compile": rec["status"]})
+            continue
+        if not add_ok:
+            rec["viol"].append({"kind": "valid-schema-rejected", "observed": adds})
+            continue
+        if rec["render"] != "ok":
+            rec["viol"].append({"kind": "render-" + str(rec["render"]), "msg": g.get("render", {}).get("msg", "")[:160]})
+            continue
+        if rec["status"] == "compile-error":
+            rec["viol"].append({"kind": "uncompilable", "errors": w.compile_errors.get(i, [])[:3]})
+            continue
+        # the shared helpers the model says check_defaults registers = the ones the real TypeSpace holds
+        idx.append(rec)
+        dumps.append(g["dump"])
+        exprs.append("String.concat \",\" (all_registered re_fn T%d %d)" % (len(dumps) - 1, FUEL))
+        obs = by.get(i, {})
+        a = obs.get("serde-missing-member")
+        if a is not None:
+            if "ok" not in a:
+                rec["viol"].append({"kind": "runtime-error", "where": "serde-missing-member", "observed": a})
+            else:
+                val = a["ok"]
+                if m["member"] == "valid" and (m["member_default"] != 0) and val.get("n") != m["member_default"]:
+                    rec["viol"].append({"kind": "different-value", "member": "n", "observed": val})
+                if m["member"] == "valid" and m["member_default"] == 0 and val.get("n", 0) != 0:
+                    rec["viol"].append({"kind": "different-value", "member": "n", "observed": val})
+                if val.get("flag") is not True:
+                    rec["viol"].append({"kind": "different-value", "member": "flag", "observed": val})
+        d = obs.get("Inner::default()")
+        if m["type_default"] is not None and not retained:
+            rec["viol"].append({"kind": "type-default-dropped",
+                                "observed": (d or {}).get("ok", "no Default impl") if isinstance(d, dict) else "no Default impl"})
+        if retained:
+            if d is None or "ok" not in d:
+                rec["viol"].append({"kind": "type-default-not-realised", "observed": d})
+            else:
+                exp = obs.get("expected-fill", {}).get("ok")
+                if not approx(m["type_default"], d["ok"]) or (exp is not None and tocoq.canon(exp) != tocoq.canon(d["ok"])):
+                    rec["viol"].append({"kind": "different-value", "where": "Inner::default()", "observed": d["ok"],
+                                        "expected": exp})
+    if exprs:
+        res = vlib.coq_eval_strings("c06reg" + ctx.tier[0], coq_header(dumps), exprs, shard=100)
+        for rec, dmp, line in zip(idx, dumps, res):
+            model = sorted(set(x for x in line.split(",") if x))
+            real = sorted(set(dmp.get("defaults", [])))
+            rec["registered"] = {"model": model, "real": real}
+            if model != real:
+                rec["viol"].append({"kind": "shared-default-fns-registered", "model": model, "real": real})
+    for rec in recs:
+        if rec["viol"]:
+            viol.append(rec)
+    return recs, viol
+
+
+def classify_combo(rec):
+    """finding C06-F14: the definition-level default of an OBJECT definition is dropped (convert_ref_type overwrites the
+    default the struct took from its schema with the empty metadata convert_object returns)"""
+    m = rec["meta"]
+    kinds = {v["kind"] for v in rec["viol"]}
+    if m["shape"] == "struct" and m["pos"] == "definition" and m["type_default"] is not None and \
+            not rec["type_default_retained"] and kinds <= {"type-default-dropped", "invalid-type-default-accepted"}:
+        return "C06-F14"
+    return None
